@@ -11,6 +11,8 @@ import traceback
 
 import z3
 
+from . import solve
+
 z3.Z3_toggle_warning_messages(False)  # rejected trigger patterns fall back to solver-chosen ones (contracts.common.forall)
 
 from . import extract
@@ -149,11 +151,12 @@ def discharge(ob: Obligation, inputs, timeout_ms: int, use_cvc5: bool, both: boo
         for c in ob.assumptions:
             s.add(c)
     if ob.expect == "sat":
-        r = s.check()
+        r = solve.check(s, min(timeout_ms, 5000) / 1000.0 * 2 + 5)
         status = {"sat": "covered", "unsat": "vacuous", "unknown": "cover-unknown"}[str(r)]
         return {"status": status, "backend": "z3", "time": time.time() - t0, "model": None}
     s.add(z3.Not(ob.goal))
-    r = s.check()
+    hard = timeout_ms / 1000.0 * 2 + 5
+    r = solve.check(s, hard)
     if r == z3.unknown:
         # quantified queries are sensitive to the solver's random choices: two more attempts with other seeds
         for seed in (7, 23):
@@ -164,7 +167,7 @@ def discharge(ob: Obligation, inputs, timeout_ms: int, use_cvc5: bool, both: boo
             for c in ob.assumptions:
                 s2.add(c)
             s2.add(z3.Not(ob.goal))
-            r2 = s2.check()
+            r2 = solve.check(s2, hard)
             if r2 != z3.unknown:
                 s, r = s2, r2
                 break
@@ -219,6 +222,10 @@ def verify_unit(job):
     spec = mod.SPECS[idx]
     vocab = mod.VOCAB
     t0 = time.time()
+    _trace = os.environ.get("VERIF_TRACE_UNITS")
+    if _trace:
+        with open(_trace, "a") as fh:
+            fh.write(f"START {os.getpid()} {spec.short} {inst}\n")
     base = {
         "unit": spec.short,
         "file": spec.file,
@@ -287,9 +294,12 @@ def verify_unit(job):
         for c in ob.assumptions:
             sv.add(c)
         tp = time.time()
-        rv = str(sv.check())
+        rv = str(solve.check(sv, 10))
         base["results"].append({"status": "vacuous" if rv == "unsat" else "covered", "backend": "z3", "time": time.time() - tp, "model": None,
                                 "oid": f"{spec.prop}/{spec.short}/cover#no-contradiction", "kind": "cover", "tag": "aux", "path": path,
                                 "goal": "the assumptions of this path (preconditions, invariants, callee contracts, axioms) do not prove False"})
     base["wall"] = time.time() - t0
+    if _trace:
+        with open(_trace, "a") as fh:
+            fh.write(f"END {os.getpid()} {spec.short} {inst} {base['wall']:.1f}\n")
     return base
